@@ -20,7 +20,8 @@ from . import prelude, streams, builtins
 from .interface import Interface
 
 PARGS = [t.INT, t.ARR, t.INT, t.INT, t.INT, 'Heap', 'Dom', t.INT]      # sub, buffer, length, position, absolute base of the stream, heap, dom, context
-for nm, ret in (('P_ok', t.BOOL), ('P_val', t.VAL), ('P_end', t.INT), ('P_exc', t.INT), ('P_H', 'Heap'), ('P_D', 'Dom')):
+for nm, ret in (('P_ok', t.BOOL), ('P_val', t.VAL), ('P_end', t.INT), ('P_exc', t.INT), ('P_H', 'Heap'), ('P_D', 'Dom'),
+                ('P_fpos', t.INT), ('P_fH', 'Heap'), ('P_fD', 'Dom')):       # P_f*: state left behind by a FAILED parse
     prelude.declare_fun(nm, PARGS, ret)
 BARGS = [t.INT, t.VAL, t.INT, 'Heap', 'Dom', t.INT]
 for nm, ret in (('B_ok', t.BOOL), ('B_ret', t.VAL), ('B_bytes', t.ARR), ('B_len', t.INT), ('B_exc', t.INT), ('B_H', 'Heap'), ('B_D', 'Dom')):
@@ -262,12 +263,13 @@ class ConstructInterface(Interface):
         if bad is not None:
             self.construct_error(eng, bad, ec)
             if o.model != 'adv':
-                newpos = fresh('subpos', t.INT)
+                newpos = t.app('P_fpos', t.INT, *a)
                 bad.assume(t.ge(newpos, t.ZERO))
                 bad.put(stream, o.replace(pos=newpos))
+                H3, D3 = t.app('P_fH', 'Heap', *a), t.app('P_fD', 'Dom', *a)
             else:
                 self.havoc_adv_failed(eng, bad, stream)
-            H3, D3 = fresh('P_H', 'Heap'), fresh('P_D', 'Dom')
+                H3, D3 = fresh('P_H', 'Heap'), fresh('P_D', 'Dom')
             self.apply_heap_outcome(eng, bad, H3, D3, c)
             out.append((bad, Raised(VExc(ec, self.exc_path(eng, bad, path, 'parse'), origin='sub-construct %s parse failed' % sc.label, explicit_path=True))))
         return out
